@@ -33,12 +33,12 @@ Perms(n) == {p \in [1..n -> 1..n] : \A i, j \in 1..n : p[i] = p[j] => i = j}
 Allowed(t) ==
   LET n == Fld(t, "anyorder", 0)
       ok(r) == r.status = "unspec" \/ (r.status = "ok" /\ t.outcome = "ok" /\ t.out = r.out) \/ (r.status = "error" /\ t.outcome = "error")
-      cx == [Cx0 EXCEPT !.cache = Fld(t, "cache", <<>>)]
+      cx == [Cx0 EXCEPT !.cache = Fld(t, "cache", <<>>), !.strict = Fld(t, "strict", FALSE)]
   IN  IF Fld(t, "noref", FALSE) THEN TRUE       \* bindings outside the reference's value universe (Go structs): no expectation
       ELSE IF Fld(t, "illformed", FALSE) THEN t.outcome = "error"      \* a template that cannot parse never renders
       ELSE IF n = 0 THEN ok(Render(cx, t.prog, EnvOf(t.env)))
       ELSE \E p \in Perms(n) : ok(Render([cx EXCEPT !.perm = p], t.prog, EnvOf(t.env)))
-Decided(t) == ~Fld(t, "noref", FALSE) /\ (Fld(t, "illformed", FALSE) \/ Render([Cx0 EXCEPT !.perm = <<1, 2, 3>>, !.cache = Fld(t, "cache", <<>>)], t.prog, EnvOf(t.env)).status # "unspec")
+Decided(t) == ~Fld(t, "noref", FALSE) /\ (Fld(t, "illformed", FALSE) \/ Render([Cx0 EXCEPT !.perm = <<1, 2, 3>>, !.cache = Fld(t, "cache", <<>>), !.strict = Fld(t, "strict", FALSE)], t.prog, EnvOf(t.env)).status # "unspec")
 
 Why(t) ==
   IF t.outcome \in {"panic", "fatal", "timeout"} THEN "the render did not return"
